@@ -363,7 +363,11 @@ func (env *specEnv) binop(x *SBin) SV {
 	case "||":
 		return SV{T: tOr(env.evalBool(x.L), env.evalBool(x.R)), Sort: "Bool"}
 	case "==>":
-		return SV{T: tImp(env.evalBool(x.L), env.evalBool(x.R)), Sort: "Bool"}
+		l := env.evalBool(x.L)
+		if l == tFalse {
+			return SV{T: tTrue, Sort: "Bool"} // the consequent may mention types that are not loaded
+		}
+		return SV{T: tImp(l, env.evalBool(x.R)), Sort: "Bool"}
 	case "<==>":
 		return SV{T: tEq(env.evalBool(x.L), env.evalBool(x.R)), Sort: "Bool"}
 	}
@@ -920,6 +924,10 @@ func (env *specEnv) call(x *SCall) SV {
 			env.fail("typeis needs a type name string")
 		}
 		name, _ := strconv.Unquote(lit.Val)
+		if e.W.parseTypeName(name) == nil {
+			// a type that is not part of the loaded program: no value can have it as dynamic type
+			return SV{T: tFalse, Sort: "Bool"}
+		}
 		id := e.W.typeIDByName(name)
 		return SV{T: tEq(sx("i-typ", v.T), tInt(int64(id))), Sort: "Bool"}
 	case "nolocks":
@@ -1037,7 +1045,10 @@ func (env *specEnv) call(x *SCall) SV {
 		if !ok {
 			env.fail("%s: base is not a pointer", id.Name)
 		}
-		su := pt.Elem().Underlying().(*types.Struct)
+		su, isStruct := pt.Elem().Underlying().(*types.Struct)
+		if !isStruct {
+			env.fail("%s: base is not a struct pointer", id.Name)
+		}
 		for i := 0; i < su.NumFields(); i++ {
 			if su.Field(i).Name() == sel.Sel {
 				lref := sx("subref", b.T, tInt(int64(i)))
@@ -1063,6 +1074,10 @@ func (env *specEnv) call(x *SCall) SV {
 		a, i, v := arg(0), arg(1), arg(2)
 		if !strings.HasPrefix(a.Sort, "(Array ") {
 			env.fail("update on %s", a.Sort)
+		}
+		if v.Nil {
+			_, vs := splitArraySort(a.Sort)
+			v = env.nilOf(SV{Sort: vs})
 		}
 		return SV{T: tStore(a.T, i.T, v.T), Sort: a.Sort, GT: a.GT}
 	case "min", "max":
